@@ -37,14 +37,18 @@ VARIABLES own, mymac, nb, owed, plearn, pend, sent, ncre
 tvars == <<l, own, mymac, nb, owed, plearn, pend, sent, ncre>>
 
 Cap == 512              \* entries of the cache: a mapping may be forgotten once Cap others were created after it
-AgeUS == 60000000       \* entry life time
+\* entry life time 60 s, with margins against scheduling jitter: an entry MAY be gone (a new request is legal) once more than
+\* MayExpireUS passed since the earliest moment it can have been created; it MUST be gone (using it / answering from it is
+\* illegal) once more than MustExpireUS passed since the latest moment it can have been created or confirmed.
+MayExpireUS == 55000000
+MustExpireUS == 61000000
 GapUS == 900000         \* lower bound used for "about 1 s" between requests
 Budget == 3
 Bcast == "255.255.255.255.255.255"
 NoLink == "no remote link address"
 
 Unknown == [st |-> "unknown", mac |-> "", opt |-> {}, nreq |-> 0, tlast |-> 0, late |-> FALSE,
-            cre |-> 0, tlo |-> 0, thi |-> 0, tfail |-> 0]
+            cre |-> 0, tlo |-> 0, thi |-> 0, tfail |-> 0, t1 |-> 0]
 Nb(h) == IF h \in DOMAIN nb THEN nb[h] ELSE Unknown
 Put(h, r) == (h :> r) @@ nb
 Fld(r, f, d) == IF f \in DOMAIN r THEN r[f] ELSE d
@@ -57,9 +61,11 @@ Reset == /\ IsEvent("reset")
          /\ nb' = <<>> /\ owed' = {} /\ plearn' = {} /\ pend' = <<>> /\ sent' = {} /\ ncre' = 0
 
 \* entry may legitimately be gone: ring overflow or age
-Stale(r, t) == ncre - r.cre >= Cap \/ t - r.tlo > AgeUS
+Stale(r, t) == ncre - r.cre >= Cap \/ t - r.tlo > MayExpireUS
 \* entry certainly expired for a lookup that starts at t
-Expired(r, t) == r.st = "known" /\ r.thi >= 0 /\ t - r.thi > AgeUS
+Expired(r, t) == r.st = "known" /\ r.thi >= 0 /\ t - r.thi > MustExpireUS
+\* a failed (negative) entry was created before the first request of its resolution (t1) was emitted
+FailedExpired(r, t) == r.st = "failed" /\ t - r.t1 > MustExpireUS
 
 \* ------------------------------------------------------------------ AnswerIff / Learn
 Inj == /\ IsEvent("inj") /\ owed = {} /\ plearn = {}
@@ -125,7 +131,7 @@ Request ==
          ts == {pend[i].t : i \in {j \in DOMAIN pend : pend[j].h = h}}
          t0 == IF ts = {} THEN 0 ELSE CHOOSE t \in ts : \A u \in ts : t <= u
          start == [r EXCEPT !.st = "resolving", !.mac = "", !.nreq = 1, !.tlast = Ev.t, !.late = FALSE,
-                            !.cre = ncre + 1, !.tlo = t0, !.thi = 0]
+                            !.cre = ncre + 1, !.tlo = t0, !.thi = 0, !.t1 = Ev.t]
          again == [r EXCEPT !.nreq = @ + 1, !.tlast = Ev.t]
      IN \/ /\ r.st = "unknown" /\ nb' = Put(h, start) /\ ncre' = ncre + 1
         \/ /\ r.st \in {"known", "failed", "resolving"} /\ Stale(r, Ev.t) /\ nb' = Put(h, start) /\ ncre' = ncre + 1
@@ -158,7 +164,7 @@ Call == /\ IsEvent("call")
         /\ LET r == Nb(Ev.h)
            IN pend' = (Ev.id :> [h |-> Ev.h, kind |-> Ev.kind, dport |-> Ev.dport, t |-> Ev.t,
                                  okm |-> (IF r.st = "known" /\ ~Expired(r, Ev.t) THEN {r.mac} ELSE {}) \cup r.opt,
-                                 fok |-> r.st = "failed", tf |-> r.tfail]) @@ pend
+                                 fok |-> (r.st = "failed" /\ ~FailedExpired(r, Ev.t)), tf |-> r.tfail]) @@ pend
         \* a lookup for a next hop that is not known may create an entry before its first request is seen (upper bound)
         /\ ncre' = ncre + (IF Nb(Ev.h).st = "known" THEN 0 ELSE 1)
         /\ UNCHANGED <<own, mymac, nb, owed, plearn, sent>>
